@@ -87,6 +87,88 @@ def in_loop(cond):
     return any(t[0] == "inloop" for t, _ in cond)
 
 
+def dispatch_obligations(ctx, r6, r7):
+    """The adaptive transition runs exactly in the adaptation epochs; tune dispatches on
+    SLOW_ADAPTATION; the enum predicates hold for the documented members (shared with
+    C11.R4: outside adaptation epochs the tuning state is never touched)."""
+    repo = ctx.repo
+    members = enum_members(repo)
+    ctx.require_min("EpochType members", len(members), 5)
+    globs = {f"{ETYPE}.{k}": v for k, v in members.items()}
+
+    def true_for(pred, etype_t):
+        """Set of member names for which the dispatch predicate is true."""
+        if pred[0] == "call" and (fn_name(pred[1]) or "").startswith(ETYPE + ".") \
+                and pred[2] == (etype_t,):
+            pfi = repo.functions.get(fn_name(pred[1]))
+            if pfi is None:
+                raise concrete.Unmodelled(pred)
+            prt = evaluate(repo, pfi).ret()
+            return {k for k, v in members.items()
+                    if concrete.evaluate(prt, {n(pfi.params()[0]): v}, globs)}
+        return {k for k, v in members.items()
+                if concrete.evaluate(pred, {etype_t: v}, globs)}
+
+    tm = repo.cls("liesel.goose.kernel.TransitionMixin")
+    tfi = method(repo, tm, "transition", own=True)
+    rt = evaluate(repo, tfi).ret()
+    p = cond_parts(rt) if rt else None
+    etype_t = ("a", ("a", n("epoch"), "config"), "type")
+    got, err = None, None
+    if p is not None:
+        try:
+            got = true_for(p[0], etype_t)
+        except concrete.Unmodelled as e:
+            err = e
+    ok = (p is not None and got == {"FAST_ADAPTATION", "SLOW_ADAPTATION"}
+          and p[1] == ("a", n("self"), "_adaptive_transition")
+          and p[2] == ("a", n("self"), "_standard_transition")
+          and p[3] == (n("prng_key"), n("kernel_state"), n("model_state"), n("epoch")))
+    ctx.ob(r6, tfi, "transition = cond(epoch type is FAST_/SLOW_ADAPTATION, adaptive, "
+                    "standard, key, kernel_state, model_state, epoch): the adaptive branch "
+                    "runs in the adaptation epochs only (not in burn-in, not in the posterior)",
+           ok, unproven=err is not None,
+           detail=f"adaptive for {sorted(got) if got is not None else err}; {short(rt or ())}",
+           stmt="dispatch " + pretty(rt or ())[:200])
+    um = repo.cls("liesel.goose.kernel.TuningMixin")
+    ufi = method(repo, um, "tune", own=True)
+    ru = evaluate(repo, ufi).ret()
+    p = cond_parts(ru) if ru else None
+    got, err = None, None
+    if p is not None:
+        try:
+            got = true_for(p[0], etype_t)
+        except concrete.Unmodelled as e:
+            err = e
+    ok = (p is not None and got == {"SLOW_ADAPTATION"}
+          and p[1] == ("a", n("self"), "_tune_slow")
+          and p[2] == ("a", n("self"), "_tune_fast")
+          and p[3] == (n("prng_key"), n("kernel_state"), n("model_state"), n("epoch"),
+                       n("history")))
+    ctx.ob(r6, ufi, "tune = cond(type == SLOW_ADAPTATION, _tune_slow, _tune_fast, "
+                    "key, kernel_state, model_state, epoch, history)", ok,
+           unproven=err is not None,
+           detail=f"slow for {sorted(got) if got is not None else err}; {short(ru or ())}",
+           stmt="dispatch " + pretty(ru or ())[:200])
+    want = {"is_adaptation": {"FAST_ADAPTATION", "SLOW_ADAPTATION"},
+            "is_warmup": {"FAST_ADAPTATION", "SLOW_ADAPTATION", "BURNIN"}}
+    for pname, expected in want.items():
+        pfi = repo.func(f"{ETYPE}.{pname}")
+        prt = evaluate(repo, pfi).ret()
+        got, err = set(), None
+        try:
+            for k, v in members.items():
+                if concrete.evaluate(prt, {n(pfi.params()[0]): v}, globs):
+                    got.add(k)
+        except concrete.Unmodelled as e:
+            err = e
+        ctx.ob(r7, pfi, f"{pname} holds exactly for {sorted(expected)}",
+               err is None and got == expected, unproven=err is not None,
+               detail=f"holds for {sorted(got)}" + (f"; unmodelled {err}" if err else ""),
+               stmt=f"{pname} = {sorted(got)}",
+               facts={"members": members, "true_for": sorted(got)})
+
+
 def kernel_sequence_obligations(ctx, rule, events):
     """Each KernelSequence method calls the same-named kernel method once per kernel and
     hands every kernel the sequence's own arguments (shared with C12.R3 for tune)."""
@@ -526,55 +608,8 @@ def check(ctx):
                               "epoch", adv_idx and idx < min(adv_idx),
                detail=f"end_warmup at {idx}, advance_epoch at {adv_idx}")
 
-    # ------------------------------------------------------------- R6 dispatch
-    tm = repo.cls("liesel.goose.kernel.TransitionMixin")
-    tfi = method(repo, tm, "transition", own=True)
-    rt = evaluate(repo, tfi).ret()
-    p = cond_parts(rt) if rt else None
-    etype_t = ("a", ("a", n("epoch"), "config"), "type")
-    ok = (p is not None and is_call(p[0], f"{ETYPE}.is_adaptation")
-          and p[0][2] == (etype_t,)
-          and p[1] == ("a", n("self"), "_adaptive_transition")
-          and p[2] == ("a", n("self"), "_standard_transition")
-          and p[3] == (n("prng_key"), n("kernel_state"), n("model_state"), n("epoch")))
-    ctx.ob("C07.R6", tfi, "transition = cond(is_adaptation(epoch type), adaptive, standard, "
-                          "key, kernel_state, model_state, epoch)", ok,
-           detail=short(rt or ()), stmt="dispatch " + pretty(rt or ())[:200])
-    um = repo.cls("liesel.goose.kernel.TuningMixin")
-    ufi = method(repo, um, "tune", own=True)
-    ru = evaluate(repo, ufi).ret()
-    p = cond_parts(ru) if ru else None
-    slow = ("g", f"{ETYPE}.SLOW_ADAPTATION")
-    ok = (p is not None and p[0] in (("cmp", "==", etype_t, slow), ("cmp", "==", slow, etype_t))
-          and p[1] == ("a", n("self"), "_tune_slow")
-          and p[2] == ("a", n("self"), "_tune_fast")
-          and p[3] == (n("prng_key"), n("kernel_state"), n("model_state"), n("epoch"),
-                       n("history")))
-    ctx.ob("C07.R6", ufi, "tune = cond(type == SLOW_ADAPTATION, _tune_slow, _tune_fast, "
-                          "key, kernel_state, model_state, epoch, history)", ok,
-           detail=short(ru or ()), stmt="dispatch " + pretty(ru or ())[:200])
-
-    # ------------------------------------------------------------- R7 enum predicates
-    members = enum_members(repo)
-    ctx.require_min("EpochType members", len(members), 5)
-    globs = {f"{ETYPE}.{k}": v for k, v in members.items()}
-    want = {"is_adaptation": {"FAST_ADAPTATION", "SLOW_ADAPTATION"},
-            "is_warmup": {"FAST_ADAPTATION", "SLOW_ADAPTATION", "BURNIN"}}
-    for pname, expected in want.items():
-        pfi = repo.func(f"{ETYPE}.{pname}")
-        prt = evaluate(repo, pfi).ret()
-        got, err = set(), None
-        try:
-            for k, v in members.items():
-                if concrete.evaluate(prt, {n(pfi.params()[0]): v}, globs):
-                    got.add(k)
-        except concrete.Unmodelled as e:
-            err = e
-        ctx.ob("C07.R7", pfi, f"{pname} holds exactly for {sorted(expected)}",
-               err is None and got == expected, unproven=err is not None,
-               detail=f"holds for {sorted(got)}" + (f"; unmodelled {err}" if err else ""),
-               stmt=f"{pname} = {sorted(got)}",
-               facts={"members": members, "true_for": sorted(got)})
+    # ------------------------------------------------------------- R6 / R7 dispatch
+    dispatch_obligations(ctx, "C07.R6", "C07.R7")
 
     # ------------------------------------------------------------- R8 kernel sequence
     n_ok = kernel_sequence_obligations(ctx, "C07.R8", EVENTS)
